@@ -53,6 +53,11 @@ var (
 
 const unexportedPkg = "vmon/internal/gen"
 
+// GKey is a DEFINED string type (kind string, not the type string) used as a map key type.
+type GKey string
+
+var TGKey = reflect.TypeOf(GKey(""))
+
 // RandStruct builds a random struct type.
 func RandStruct(rng *rand.Rand, o TypeOpts) reflect.Type {
 	return randStruct(rng, o, 0)
@@ -136,7 +141,7 @@ func randFieldType(rng *rand.Rand, o TypeOpts, depth int) reflect.Type {
 			if o.Maps {
 				kt := TString
 				if rng.Intn(3) == 0 {
-					kt = []reflect.Type{TInt, TInt32, TUint8, TInt64}[rng.Intn(4)]
+					kt = []reflect.Type{TInt, TInt32, TUint8, TInt64, TGKey, TUint64}[rng.Intn(6)]
 				}
 				return reflect.MapOf(kt, elem())
 			}
@@ -228,6 +233,9 @@ func fill(rng *rand.Rand, v reflect.Value, o ValueOpts, tag reflect.StructTag, t
 					k.SetInt(int64(rng.Intn(100)) - 20)
 				default:
 					k.SetUint(uint64(rng.Intn(100)))
+					if t.Key().Bits() == 64 && rng.Intn(3) == 0 {
+						k.SetUint(1<<63 + uint64(rng.Intn(100))) // beyond the signed range
+					}
 				}
 				e := reflect.New(t.Elem()).Elem()
 				fillElem(rng, e, o, tag)
